@@ -41,7 +41,7 @@ def replay(w):
     if kind == "compact":
         from moptipyapps.binpacking2d.instance import Instance
         from moptipyapps.binpacking2d.instgen.instance_space import InstanceSpace
-        inst = Instance("i", w["W"], w["H"], [list(i) for i in w["items"]])
+        inst = Instance(w.get("name", "i"), w["W"], w["H"], [list(i) for i in w["items"]])
         txt = inst.to_compact_str()
         info = dict(text=txt)
         try:
@@ -65,7 +65,7 @@ def replay(w):
         from moptipyapps.binpacking2d.instance import Instance
         from moptipyapps.binpacking2d.packing import Packing
         from moptipyapps.binpacking2d.packing_space import PackingSpace
-        inst = Instance("i", w["W"], w["H"], [list(i) for i in w["items"]])
+        inst = Instance(w.get("name", "i"), w["W"], w["H"], [list(i) for i in w["items"]])
         sp = PackingSpace(inst)
         y = Packing(inst)
         np.copyto(y, np.array(w["rows"], dtype=np.int64), casting="unsafe")
@@ -105,12 +105,17 @@ def replay(w):
     raise ValueError(kind)
 
 
-def job_compact(reps):
+COMPACT_NAMES = ["i", "Pallet_B2", "X", "a04n", "cl01_020_01", "ZZ9", "mIxEd_Case_7"]
+
+
+def job_compact(reps, name="i"):
+    """`name` is concrete (strings are not symbolic here): the jobs cycle through names over the accepted alphabet -
+    lower and upper case letters, digits, underscore"""
     to_c, from_c = compact_funcs()
     n = sum(reps)
 
     def h(eng):
-        inst = P.make_instance(eng, reps)
+        inst = P.make_instance(eng, reps, name=name)
         eng.pending = []
         txt = to_c(inst)
         try:
@@ -135,7 +140,7 @@ def job_compact(reps):
         v = eng.violations[0]
         md = {d.name(): v.model[d].as_long() for d in v.model.decls() if z3.is_int_value(v.model[d])}
         W, H, items = P.model_instance(md, reps)
-        w = dict(kind="compact", W=W, H=H, items=[list(i) for i in items], label=v.label)
+        w = dict(kind="compact", W=W, H=H, items=[list(i) for i in items], label=v.label, name=name)
         bad, info = replay(w)
         w["observed"] = info
         if bad:
@@ -143,7 +148,7 @@ def job_compact(reps):
         return inconclusive(f"model does not replay ({v.label}): {w}", **common)
     if not ok or not eng.outcomes.get("roundtrip"):
         return inconclusive(f"not conclusive {eng.stats()}", **common)
-    return held(summary=f"compact string reps={reps}: {eng.paths} paths", sample=dict(reps=reps, sizes="symbolic up to 10^12"), **common)
+    return held(summary=f"compact string reps={reps} name={name!r}: {eng.paths} paths", sample=dict(reps=reps, name=name, sizes="symbolic up to 10^12"), **common)
 
 
 def job_packing(reps):
@@ -341,7 +346,8 @@ def jobs(tier):
     seed = int(os.environ.get("VERIF_SEED", "0") or 0)
     js = [Job("selftest", job_selftest, dict(seed=seed), "selftest", 600)]
     for reps in ([1], [2], [1, 1], [1, 3], [2, 1], [1, 1, 1], [1, 2, 1]) + (([2, 2, 1], [1, 1, 1, 1]) if tier == "thorough" else ()):
-        js.append(Job(f"compact/reps{'-'.join(map(str, reps))}", job_compact, dict(reps=list(reps)), "instance_compact_str", 900))
+        nm = COMPACT_NAMES[len(js) % len(COMPACT_NAMES)]
+        js.append(Job(f"compact/reps{'-'.join(map(str, reps))}/{nm}", job_compact, dict(reps=list(reps), name=nm), "instance_compact_str", 900))
     for reps in ([1], [2], [1, 1]) + (([1, 2], [1, 1, 1]) if tier == "thorough" else ()):
         js.append(Job(f"packing/reps{'-'.join(map(str, reps))}", job_packing, dict(reps=list(reps)), "packing_text", 1800))
     for n, r in ((2, 2), (4, 1), (4, 2)) + (((6, 1), (6, 2)) if tier == "thorough" else ()):
